@@ -239,7 +239,10 @@ Structured ==
     \cup {[MinimalEof(0) EXCEPT ![3] = v] : v \in {0, 2}}         \* ... with another version
     \cup {[i \in 1..k |-> 91] : k \in {23, 32, 33}}               \* legacy code ending in JUMPDEST
     \cup {[i \in 1..k |-> 127] : k \in {23, 33, 34}}              \* legacy code ending in a cut-off PUSH32
-    \cup {[i \in 1..k |-> 0] : k \in {23, 33}}                    \* legacy code that is all zero: padding looks like code
+    \cup {[i \in 1..k |-> 0] : k \in {23, 33, 34, 66}}            \* legacy code that is all zero: padding looks like code
+    \* legacy code with a zero tail as long as / longer than the padding an analysis appends (33 bytes): a tail of
+    \* the original code must never be mistaken for padding
+    \cup {[i \in 1..(p + k) |-> IF i <= p THEN 91 ELSE 0] : p \in {1, 2, 7}, k \in {31, 32, 33, 34, 40, 66}}
 
 \* exhaustive mode: no string is enumerated twice (the structured strings are longer than MaxLen)
 NoDuplicates == \A s \in Structured : Len(s) > MaxLen
